@@ -57,24 +57,32 @@ def _small(x, budget=24):
     return True
 
 
+_CB_CACHE = {}
+
+
 def concrete_bool(x):
     """True/False if x is definitely that, else None."""
     if isinstance(x, bool):
         return x
     if isinstance(x, int):
         return bool(x)
+    k = x.get_id()
+    hit = _CB_CACHE.get(k)
+    if hit is not None and hit[0] is x:
+        return hit[1]
     if z3.is_true(x):
-        return True
-    if z3.is_false(x):
-        return False
-    if not _small(x):
-        return None
-    s = z3.simplify(x)
-    if z3.is_true(s):
-        return True
-    if z3.is_false(s):
-        return False
-    return None
+        r = True
+    elif z3.is_false(x):
+        r = False
+    elif not _small(x):
+        r = None
+    else:
+        s = z3.simplify(x)
+        r = True if z3.is_true(s) else (False if z3.is_false(s) else None)
+    if len(_CB_CACHE) > 400000:
+        _CB_CACHE.clear()
+    _CB_CACHE[k] = (x, r)
+    return r
 
 
 def concrete_int(x):
@@ -252,6 +260,9 @@ def ite(c, a, b, w=None):
     if isinstance(a, str) and isinstance(b, str):
         if a == b:
             return a
+        if a[:1].isdigit() and b[:1].isdigit():
+            # digit strings (occurrence texts) are merged byte-wise, words stay alternatives
+            return SymStr(seq_ite(c, seq_from_bytes(a.encode('utf-8')), seq_from_bytes(b.encode('utf-8'))))
         return Choice(((c, a), (True, b)))
     if isinstance(a, Choice) or isinstance(b, Choice):
         return _ite_choice(c, a, b)
@@ -312,10 +323,17 @@ def _ite_scalar(c, a, b, w=None):
     if isinstance(a, bool) or isinstance(b, bool) or isinstance(a, z3.BoolRef) or isinstance(b, z3.BoolRef):
         return z3.If(c, zbool(a), zbool(b))
     if is_sym(a) and not is_sym(b):
+        if w and a.size() != w:
+            a = bv(a, w)
         return z3.If(c, a, z3.BitVecVal(b, a.size()))
     if is_sym(b) and not is_sym(a):
+        if w and b.size() != w:
+            b = bv(b, w)
         return z3.If(c, z3.BitVecVal(a, b.size()), b)
     if is_sym(a) and is_sym(b):
+        if isinstance(a, z3.BitVecRef) and isinstance(b, z3.BitVecRef) and a.size() != b.size():
+            n = w or max(a.size(), b.size())
+            a, b = bv(a, n), bv(b, n)
         return z3.If(c, a, b)
     # two distinct Python ints: width unknown here -> 64 (usize/u64 are the only merged ints; u8/char are
     # widened consistently by bv() at their use sites)
@@ -379,23 +397,117 @@ def _filler(a, b):
     return UNINIT
 
 
-def merge_many(pairs):
+def merge_many(pairs, w=None):
     """pairs: list of (cond, value) with mutually exclusive conds covering the cases of interest.
-    Returns the ite-merged value (last pair is the default)."""
+    Returns the merged value (n-ary, type directed; the last pair is the default of scalar ite chains).
+    w: bit width of scalar leaves if known."""
     assert pairs
-    # group structurally identical values
+    # group structurally identical values (hash buckets by fingerprint, confirmed by _same)
     groups = []
+    buckets = {}
     for c, v in pairs:
-        for g in groups:
-            if _same(g[1], v):
+        fp = _fingerprint(v)
+        placed = False
+        for g in buckets.get(fp, ()):
+            if g[1] is v or _same(g[1], v):
                 g[0] = Or(g[0], c)
+                placed = True
                 break
-        else:
-            groups.append([c, v])
+        if not placed:
+            g = [c, v]
+            groups.append(g)
+            buckets.setdefault(fp, []).append(g)
+    if len(groups) == 1:
+        return groups[0][1]
+    vals = [g[1] for g in groups]
+    live = [g for g in groups if not isinstance(g[1], Uninit)]
+    if not live:
+        return UNINIT
+    if len(live) == 1:
+        return live[0][1]
+    groups = live
+    vals = [g[1] for g in groups]
+    v0 = vals[0]
+    if all(isinstance(v, Struct) for v in vals) and all(v.ty == v0.ty and len(v.fields) == len(v0.fields) for v in vals):
+        return Struct(v0.ty, tuple(merge_many([(g[0], g[1].fields[i]) for g in groups]) for i in range(len(v0.fields))))
+    if all(isinstance(v, tuple) for v in vals) and all(len(v) == len(v0) for v in vals):
+        return tuple(merge_many([(g[0], g[1][i]) for g in groups]) for i in range(len(v0)))
+    if all(isinstance(v, Enum) for v in vals) and all(v.ty == v0.ty for v in vals):
+        disc = merge_many([(g[0], g[1].disc) for g in groups])
+        idxs = sorted({i for v in vals for i, _ in v.payloads})
+        pl = []
+        for i in idxs:
+            have = [(g[0], g[1].payload(i)) for g in groups if g[1].payload(i) is not None]
+            n = len(have[0][1])
+            pl.append((i, tuple(merge_many([(c, p[j]) for c, p in have]) for j in range(n))))
+        return Enum(v0.ty, disc, tuple(pl))
+    if all(isinstance(v, str) for v in vals):
+        if all(v[:1].isdigit() for v in vals):
+            return SymStr(_merge_seqs([(g[0], seq_from_bytes(g[1].encode('utf-8'))) for g in groups]))
+        return Choice(tuple((g[0], g[1]) for g in groups))
+    if all(isinstance(v, (str, SymStr)) for v in vals):
+        return SymStr(_merge_seqs([(g[0], g[1].seq if isinstance(g[1], SymStr) else seq_from_bytes(g[1].encode('utf-8')))
+                                   for g in groups]))
+    if all(isinstance(v, Seq) for v in vals):
+        return _merge_seqs([(g[0], g[1]) for g in groups])
+    if all(hasattr(v, 'merge_with') for v in vals) and not any(is_sym(v) for v in vals):
+        # objects: pairwise merge where possible, otherwise a flat choice
+        out = []
+        for c, v in groups:
+            for o in out:
+                m = v.merge_with(c, o[1]) if type(o[1]) is type(v) else None
+                if m is not None:
+                    o[0], o[1] = Or(o[0], c), m
+                    break
+            else:
+                out.append([c, v])
+        if len(out) == 1:
+            return out[0][1]
+        return Choice(tuple((c, v) for c, v in out))
     res = groups[-1][1]
     for c, v in reversed(groups[:-1]):
-        res = ite(c, v, res)
+        res = ite(c, v, res, w)
     return res
+
+
+def _fingerprint(v, depth=0):
+    if is_sym(v):
+        return ('z', v.get_id())
+    if isinstance(v, (bool, int, str, float)) or v is None:
+        return v
+    if depth > 6:
+        return type(v).__name__
+    if isinstance(v, tuple):
+        return tuple(_fingerprint(x, depth + 1) for x in v)
+    if isinstance(v, Struct):
+        return (v.ty,) + tuple(_fingerprint(x, depth + 1) for x in v.fields)
+    if isinstance(v, Enum):
+        return (v.ty, _fingerprint(v.disc, depth + 1)) + tuple((i, tuple(_fingerprint(x, depth + 1) for x in f))
+                                                               for i, f in v.payloads)
+    if isinstance(v, Seq):
+        return ('seq', _fingerprint(v.len, depth + 1)) + tuple(_fingerprint(x, depth + 1) for x in v.elems)
+    if isinstance(v, SymStr):
+        return ('symstr', _fingerprint(v.seq, depth + 1))
+    return type(v).__name__
+
+
+def _merge_seqs(pairs):
+    seqs = [s for _, s in pairs]
+    ety = next((s.ety for s in seqs if s.ety), '')
+    w = width_of_type(ety) if ety else None
+    lens = [s.len for s in seqs]
+    if all(not is_sym(l) for l in lens) and len(set(lens)) == 1:
+        n = lens[0]
+        return Seq(tuple(merge_many([(c, s.elems[i]) for c, s in pairs], w) for i in range(n)), n, ety)
+    cap = max(s.cap for s in seqs)
+    elems = []
+    for i in range(cap):
+        have = [(c, s.elems[i]) for c, s in pairs if i < s.cap and s.elems[i] is not None]
+        elems.append(merge_many(have, w) if have else UNINIT)
+    ln = pairs[-1][1].len
+    for c, s in reversed(pairs[:-1]):
+        ln = ite(c, s.len, ln, 64)
+    return Seq(tuple(elems), ln, ety)
 
 
 def same(a, b):
